@@ -321,7 +321,7 @@ func roundTrip(ad *schema.Advertisement, codec uint64) (*schema.Advertisement, e
 
 func TestCheck(t *testing.T) {
 	r := vp.New("C05", "exploration",
-		"advertisements: product of {previous link} x {entries: NoEntries/real} x {0..2 addresses} x {metadata empty/non-empty} x {IsRm} x {extended providers: none, main only, 2, 3 (main at every position)} x {override} x {context ID 0/1/64 bytes}; signer = provider and signer != provider (also with the signer itself listed as an extended provider); key types per tier. For each signed ad: verify, verify after DAG-JSON and DAG-CBOR round trip, every single-value mutation (27 kinds), and for representative ads every single-bit flip and field-level replacement inside every signature envelope, and every assignment of signing keys {named identity, ad signer, unrelated} to the extended-provider entries. Non-trivial: every case other than verifying the untouched ad. Distinct = distinct (ad shape, keys, check).",
+		"advertisements: product of {previous link} x {entries: NoEntries/real} x {0..2 addresses} x {metadata empty/non-empty} x {IsRm} x {extended providers: none, main only, 2, 3 (main at every position)} x {override} x {context ID 0/1/64 bytes}; signer = provider and signer != provider (also with the signer itself listed as an extended provider); key types per tier. For each signed ad: verify, sign a modified by-value copy and verify the original again (its bytes unchanged), verify after DAG-JSON and DAG-CBOR round trip, every single-value mutation (27 kinds), and for representative ads every single-bit flip and field-level replacement inside every signature envelope, and every assignment of signing keys {named identity, ad signer, unrelated} to the extended-provider entries. Non-trivial: every case other than verifying the untouched ad. Distinct = distinct (ad shape, keys, check).",
 		"mutations that change no signed value (context ID of an ad without extended providers) must still verify",
 		"added/removed addresses are non-empty strings (an empty address does not change the undelimited signed payload, which the statement excludes)",
 		"envelope alterations are judged semantically (same decoded envelope = not an alteration)",
@@ -412,6 +412,40 @@ func TestCheck(t *testing.T) {
 		r.Outcome("verified")
 		if s.nEP == 3 && s.prev && s.entries {
 			r.Sample(map[string]any{"key_type": kt, "shape": s.String(), "signer_is_provider": signerIsProvider})
+		}
+		// (a') a derived advertisement: the caller copies the signed ad by value
+		// (as one does to publish an update), changes a field of the copy and
+		// signs the copy. The first advertisement is still what it was: it
+		// verifies, and none of its bytes moved.
+		{
+			key := base + "|derived-copy-signed"
+			r.Eval(key, true)
+			before := fingerprint(ad)
+			derived := *ad
+			if ad.ExtendedProvider != nil {
+				// the copy gets its own provider list (signing fills in the
+				// entries' signatures); byte slices stay shared, as after any
+				// copy by value
+				ep := *ad.ExtendedProvider
+				ep.Providers = append([]schema.Provider(nil), ad.ExtendedProvider.Providers...)
+				derived.ExtendedProvider = &ep
+			}
+			derived.ContextID = append(append([]byte(nil), ad.ContextID...), 'x')
+			var derr error
+			if pn, m := vp.Guard(func() { derr = derived.SignWithExtendedProviders(signer.Priv, c.keyFor) }); pn || derr != nil {
+				r.Violation("sign:derived-copy", key, fmt.Sprint(firstLine(m), derr), nil)
+			} else {
+				if after := fingerprint(ad); after != before {
+					r.Violation("sign:signing-a-copy-changed-the-original", key, fmt.Sprintf("before %s\nafter  %s", before, after), nil)
+					return // the ad under examination is no longer what was built
+				} else if id, err, _, _ := verify(ad); err != nil || id != signer.ID {
+					r.Violation("verify:original-rejected-after-a-copy-was-signed", key, fmt.Sprintf("id=%s err=%v", id, err), nil)
+					return
+				}
+				if id, err, _, _ := verify(&derived); err != nil || id != signer.ID {
+					r.Violation("verify:own-signature-rejected", key, fmt.Sprintf("derived copy: id=%s err=%v", id, err), nil)
+				}
+			}
 		}
 		// (b) round trips
 		for _, codec := range []uint64{uint64(multicodec.DagJson), uint64(multicodec.DagCbor)} {
